@@ -131,7 +131,10 @@ class C13(Check):
                   'unless it is suspended meanwhile or the notification served the write side (bytes taken / onWrite), (peer) the peer '
                   'reads exactly what the OS took. In the traces of the theorems the ends of run() calls and the getSendBufferSize probes '
                   'stand ANYWHERE in the history, so the order in which the judge serialises what the harness observed (operations '
-                  'executed from inside a callback before the end of that run()) is an instance. The IMPLEMENTATION IS JUDGED BY THAT '
+                  'executed from inside a callback before the end of that run()) is an instance; for n clients the deadline clauses '
+                  'are proved (n_client_history_meets_deadlines) for the histories in which one poll round reports a client at most '
+                  'once and a run() ends only where Server::Private::run can return after the interrupt was reported - no collected '
+                  'notification left, or directly after the poll round that collected them (interrupt in the same epoll batch). The IMPLEMENTATION IS JUDGED BY THAT '
                   'MONITOR (extracted, run on the ordered event trace observed under a simulated kernel: send/epoll_ctl/epoll_wait '
                   'interposed, peer end of a real socket pair read back; up to four clients of one Server) - not by predicted '
                   'observations: the number and size of send '
@@ -161,9 +164,10 @@ class C13(Check):
                   'answered 0 is an input like any write that returns false (no fault: the connection stays judged); a send call the '
                   'history has no scripted answer for is answered would-block by '
                   'the simulated kernel and not judged. The deadline clauses (onWrite deadline, progress, resumed) are proved for the '
-                  'one-client model (one poll event = one poll of a run()); the n-client trace of the theorem is the judge\'s trace '
-                  'without the kernel-asked events (wr / rd), so for several clients the deadline clauses are checked on the '
-                  'implementation only. Choices where the property text is silent and the '
+                  'one-client model with run ends anywhere (one poll event = one poll of a run()) and for the n-client model under '
+                  'the hypothesis runs_ok on where a run() ends (ServerWriteMonitor2Proofs.v; that the harness / the driver only '
+                  'produce such histories is by construction of Server::run and Poll::poll, not proved: poll() asks the kernel only '
+                  'when nothing is cached). Choices where the property text is silent and the '
                   'reference OBJECT / model (not the oracle) follow the code: a write '
                   'of 0 bytes on a connection without backlog issues send(fd, p, 0), whose result 0 is treated as "connection closed" '
                   '(write returns false, onClosed follows) - DESIGN 5 lists this as outside the statements, not patched; a hang-up '
